@@ -94,6 +94,8 @@ def cases(d):
         cp["ignore"] = [{"name": "ig0", "items": [d.choice(vals)]}]
     if tk != "enum" and d.chance(25):
         cp["target_style"] = "callable"
+        if d.chance(40):
+            cp["boom"] = True       # some samples make the user's callable raise (see below)
     abm = d.choice([64, 1, 2, 3, 4, 5, 8])
     iff = d.choice([None, None, "field", "callable"])
     if iff:
@@ -103,6 +105,11 @@ def cases(d):
     for _ in range(d.randint(0, 6)):
         order.append(d.choice(tv))
     samples = [[v, (1 if (not iff or d.chance(70)) else 0)] for v in order]
+    if cp.get("boom"):
+        # sample() calls during which the target callable raises (the caller catches the exception): the samples AFTER
+        # them must be counted like any other
+        for _ in range(d.randint(1, 3)):
+            samples.insert(d.randint(1, len(samples)), [d.choice(tv), 1, "raise"])
     cg = {"name": "CG", "params": [{"name": "a", "type": t}] + ([{"name": "en", "type": {"kind": "bit", "w": 1}}] if iff else []),
           "options": {"auto_bin_max": abm}, "cps": [cp]}
     if cp.get("bins") and d.chance(30):
@@ -159,7 +166,25 @@ def run_case(case, prop=PROPERTY):
             return [V("bin_count", "regular/ignore/illegal bin counts differ from the reference", case,
                       "coverpoint %s: library %s, reference %s" % (cname, [len(x) for x in h], [len(x) for x in refs[cname]]))], info
     has_iff = bool(cp.get("iff"))
-    for v, en in case["samples"]:
+    for smp in case["samples"]:
+        v, en = smp[0], smp[1]
+        if len(smp) > 2:
+            # the user's callable raises during this sample() call; what this call counted is not judged
+            ns["BOOM"][0] = True
+            try:
+                if has_iff:
+                    o.sample(v, en)
+                else:
+                    o.sample(v)
+            except RuntimeError:
+                pass
+            except Exception as e:
+                ns["BOOM"][0] = False
+                reset_library()
+                return [V("library_exception", "sample: " + exc_sig(e), case, "sample(%r) with a raising callable raised %r" % (v, e))], info
+            ns["BOOM"][0] = False
+            info["raised"] = info.get("raised", 0) + 1
+            continue
         before = [cov.hits(m) for _, m in models]
         try:
             arg = v
@@ -390,6 +415,8 @@ def body(case, acc):
         acc.label("iff:" + list(cp["iff"])[0])
     if cp.get("target_style"):
         acc.label("target:" + cp["target_style"])
+    if cp.get("boom"):
+        acc.label("sample() calls during which the user's callable raised", info.get("raised", 0))
     for b in cp.get("bins") or []:
         acc.label("bin kind:" + b["kind"] + ("" if b["kind"] == "bin" else (":n" if b.get("n") else ":unbounded")))
     return vios
